@@ -13,6 +13,7 @@ import (
 	g "github.com/bobertlo/gmars"
 
 	"verif/mc/hx"
+	"verif/mc/ref"
 	"verif/mc/sched"
 )
 
@@ -66,9 +67,10 @@ const (
 	JAsmLbl // a FOR block with a block label used inside and after it
 	JSim2   // two rounds in one simulator with Reset called twice in between
 	JAsmOrg // the entry point given by ORG and again (same value) by END
+	JSim5   // five rounds in one simulator at alternating placements, results of every round
 )
 
-var jobNames = []string{"assemble(mov 0, -1)", "assemble(EQU + FOR)", "simulate(shared warrior)", "load(MOV.I $ 0, $ 1)", "assemble(labels + EQU chain + ;assert)", "assemble(FOR 0: a pass that emits nothing)", "assemble(mov 0, -1 under CORESIZE 8000)", "assemble(ICWS'88 dwarf)", "assemble(undefined symbol: an error)", "assemble(labelled FOR block)", "simulate(two rounds, Reset twice)", "assemble(ORG and END agree)"}
+var jobNames = []string{"assemble(mov 0, -1)", "assemble(EQU + FOR)", "simulate(shared warrior)", "load(MOV.I $ 0, $ 1)", "assemble(labels + EQU chain + ;assert)", "assemble(FOR 0: a pass that emits nothing)", "assemble(mov 0, -1 under CORESIZE 8000)", "assemble(ICWS'88 dwarf)", "assemble(undefined symbol: an error)", "assemble(labelled FOR block)", "simulate(two rounds, Reset twice)", "assemble(ORG and END agree)", "simulate(five rounds in one simulator)"}
 
 const srcAsm1 = "mov 0, -1\n"
 const srcAsm2 = "n equ 2\ni for n\ndat i, n\nrof\n"
@@ -119,6 +121,28 @@ func RunJob(kind int, cfg g.SimulatorConfig, shared *g.WarriorData) (res string)
 			core[a] = sim.GetMem(g.Address(a))
 		}
 		return fmt.Sprintf("res=%v cycles=%d core=%s queues=%v %v", r, sim.CycleCount(), hx.CoreStr(core), w1.Queue(), w2.Queue())
+	case JSim5:
+		sim, err := g.NewSimulator(cfgSmall)
+		if err != nil {
+			return "error"
+		}
+		w1, _ := sim.AddWarrior(shared)
+		w2, _ := sim.AddWarrior(&g.WarriorData{Code: []g.Instruction{{Op: g.JMP, OpMode: g.B}}, Start: 0})
+		var sb strings.Builder
+		for round := 0; round < 5; round++ {
+			if round > 0 {
+				sim.Reset()
+			}
+			sim.SpawnWarrior(0, g.Address(round%2))
+			sim.SpawnWarrior(1, g.Address(3+round%2))
+			r := sim.Run()
+			core := make([]g.Instruction, 5)
+			for a := range core {
+				core[a] = sim.GetMem(g.Address(a))
+			}
+			fmt.Fprintf(&sb, "round %d: res=%v cycles=%d core=%s queues=%v %v; ", round, r, sim.CycleCount(), hx.CoreStr(core), w1.Queue(), w2.Queue())
+		}
+		return sb.String()
 	case JAsm88:
 		return render(g.CompileWarrior(strings.NewReader("loop add #4, bomb\nmov bomb, @bomb\njmp loop\nbomb dat #0, #0\nend loop\n"), g.ConfigKOTH88))
 	case JAsmErr:
@@ -183,7 +207,7 @@ func (s *Scenario) describe() string {
 func Scenarios(thorough bool) [][]int {
 	// single jobs too: one assembly already runs a consumer and one or two
 	// producer goroutines whose interleaving must not change its result
-	out := [][]int{{JAsm4}, {JAsm2}, {JAsm1}, {JAsm4, JAsm1}, {JAsm1, JAsm1b}, {JAsm1b, JAsm1}, {JAsm88, JAsm1}, {JAsmErr, JAsm1}, {JAsmErr, JAsmErr}, {JAsmLbl, JAsm2}, {JAsmLbl, JAsmLbl}, {JSim2, JSim2}, {JSim2, JSim}, {JAsmOrg, JAsmOrg}, {JAsm1, JAsm1}, {JAsm1, JSim}, {JSim, JSim}, {JLoad, JAsm1}, {JLoad, JSim}, {JAsm1, JAsm2}, {JAsm2, JSim}, {JAsm2, JAsm2}, {JAsm3, JAsm1}, {JAsm3, JAsm3}}
+	out := [][]int{{JAsm4}, {JAsm2}, {JAsm1}, {JAsm4, JAsm1}, {JAsm1, JAsm1b}, {JAsm1b, JAsm1}, {JAsm88, JAsm1}, {JAsmErr, JAsm1}, {JAsmErr, JAsmErr}, {JAsmLbl, JAsm2}, {JAsmLbl, JAsmLbl}, {JSim2, JSim2}, {JSim2, JSim}, {JSim5, JSim5}, {JSim5, JAsm2}, {JAsmOrg, JAsmOrg}, {JAsm1, JAsm1}, {JAsm1, JSim}, {JSim, JSim}, {JLoad, JAsm1}, {JLoad, JSim}, {JAsm1, JAsm2}, {JAsm2, JSim}, {JAsm2, JAsm2}, {JAsm3, JAsm1}, {JAsm3, JAsm3}}
 	if thorough {
 		out = append(out, []int{JAsm1, JAsm2, JSim}, []int{JSim, JSim, JAsm1}, []int{JAsm3, JSim, JLoad}, []int{JAsm1, JAsm1, JAsm1})
 	} else {
@@ -212,6 +236,29 @@ func Expected(kind int) (string, bool) {
 		return "error", true
 	case JAsmOrg:
 		return `ok [MOV.I $0 $1 | MOV.I $0 $1] start=1 name=""`, true
+	case JSim5:
+		// by construction: the reference scheduler, a fresh machine per round
+		var sb strings.Builder
+		sh := SharedWarrior()
+		for round := 0; round < 5; round++ {
+			m := ref.NewMars(5, 5, 5, 2, 4)
+			m.Add()
+			m.Add()
+			m.Spawn(0, sh.Code, sh.Start, uint64(round%2))
+			m.Spawn(1, []g.Instruction{{Op: g.JMP, OpMode: g.B}}, 0, uint64(3+round%2))
+			for m.Active() {
+				m.Cycle()
+			}
+			q := func(x []uint64) []g.Address {
+				out := make([]g.Address, len(x))
+				for i, v := range x {
+					out[i] = g.Address(v)
+				}
+				return out
+			}
+			fmt.Fprintf(&sb, "round %d: res=%v cycles=%d core=%s queues=%v %v; ", round, []bool{m.Ws[0].Alive, m.Ws[1].Alive}, m.Cycles, hx.CoreStr(m.Core), q(m.Ws[0].Q), q(m.Ws[1].Q))
+		}
+		return sb.String(), true
 	case JAsmLbl:
 		return `ok [JMP.B $1 $0 | ADD.AB #1 $0 | ADD.AB #2 $79 | SPL.B $77 $78] start=0 name=""`, true
 	}
